@@ -173,12 +173,53 @@ def apply_step(res, st):
         islist = isinstance(st["l"], (list, tuple))
         l1 = [(v if islist else v[0]) for v in a] if st.get("multi") else (a[0] if islist else a[0][0])
         l2 = [(v if islist else v[0]) for v in b] if st.get("multi") else (b[0] if islist else b[0][0])
+        if st.get("plot"):
+            LAST_PLOT[:] = [run_plot_contrast(res, l1, l2, st)]
         t = res.raw_contrast(l1, l2, x=st["x"], y="reward", l=st["l"], p=st["p"], span=st.get("span"))
         return None, t
     if op == "raw_learners":
         t = res.raw_learners(x=st["x"], y=st.get("y", "reward"), l=st["l"], p=st.get("p"), span=st.get("span"))
         return None, t
     raise RuntimeError("bad op " + op)
+
+
+LAST_PLOT = []
+
+
+class RangeCI:
+    """an all-rational PointAndInterval object (coba accepts any object with point / point_interval): point = mean,
+    error sizes = distance of the mean to the smallest / largest value (mirrored by `rangeCi` in the Lean model)"""
+
+    def point(self, Z):
+        return float(sum(Fraction(z) for z in Z) / len(Z))
+
+    def point_interval(self, Z):
+        m = sum(Fraction(z) for z in Z) / len(Z)
+        return (float(m), (float(m - min(Fraction(z) for z in Z)), float(max(Fraction(z) for z in Z) - m)))
+
+
+def run_plot_contrast(res, l1, l2, st):
+    """calls the real `plot_contrast` with a recording plotter (coba's own `set_plotter` hook) -> what was handed to the plotter"""
+    from coba.results.core import Plotter
+    pl = st["plot"]
+    calls = []
+
+    class Rec(Plotter):
+        def plot(self, ax, lines, title, xlabel, ylabel, xlim, ylim, xticks, yticks, legend, xrotation, yrotation, xorder, out):
+            calls.append({"lines": [{"X": list(ln.X), "Y": list(ln.Y), "YE": (None if ln.YE is None else list(ln.YE)), "label": ln.label,
+                                     "style": ln.style, "color": ln.color} for ln in lines],
+                          "title": title, "xorder": (None if xorder is None else list(xorder))})
+    old = res._plotter
+    res.set_plotter(Rec())
+    try:
+        err = pl.get("err")
+        res.plot_contrast(l1, l2, x=st["x"], y="reward", l=st["l"], p=st["p"], mode=pl["mode"], span=st.get("span"),
+                          err=(RangeCI() if err == "range" else err), errevery=pl.get("errevery"), boundary=pl.get("boundary", True), out=None)
+        return {"calls": calls}
+    except Exception as e:  # noqa
+        return {"calls": calls, "err": type(e).__name__, "errmsg": str(e)[:200]}
+    finally:
+        res._plotter = old
 
 
 def run_case(case):
@@ -218,8 +259,112 @@ def run_case(case):
             except Exception as e:  # noqa
                 rec["err"] = type(e).__name__
                 rec["errmsg"] = str(e)[:200]
+            if st.get("plot") and LAST_PLOT:
+                rec["plot"] = LAST_PLOT.pop()
             recs.append(rec)
         return recs
+    finally:
+        CobaContext.logger = old
+
+
+INT_HDR = ["environment_id", "learner_id", "evaluator_id", "index", "reward"]
+
+
+def inc_rows(case, ev_):
+    e, l, v, ys = ev_
+    return [[e, l, v, i, reward(case, y)] + ([100 * e + 10 * l + v + 1000 * i] if case.get("extra") else []) for i, y in enumerate(ys, 1)]
+
+
+def inc_look(obj, what, is_table):
+    """read-only uses between two inserts (they make the table compute / cache whatever it caches)"""
+    t = obj if is_table else obj.interactions
+    if what == "table_where":
+        ids = list(t["environment_id"])
+        if ids:
+            len(t.where(environment_id=ids[0]))
+    elif what == "table_groupby":
+        list(t.groupby(3, "count"))
+    elif what == "table_groupby1":
+        list(t.groupby(1, "count"))
+    elif is_table:
+        list(t)
+    elif what == "where":
+        obj.where(learner_id=[r[0] for r in obj.learners][:1])
+    elif what == "fin":
+        obj.where_fin(None, "learner_id", "environment_id")
+    elif what == "fin_min":
+        obj.where_fin("min", "learner_id", "environment_id")
+    elif what == "raw":
+        try:
+            obj.raw_learners(x="index", y="reward", l="learner_id", p=None)
+        except Exception:  # noqa
+            pass
+    elif what == "raw_p":
+        try:
+            obj.raw_learners(x="environment_id", y="reward", l="learner_id", p="environment_id")
+        except Exception:  # noqa
+            pass
+    elif what == "copy":
+        obj.copy().where_fin("min", "learner_id", "environment_id")
+
+
+def run_inc(case):
+    """kind 'inc': the Result (or its interaction Table) is built INCREMENTALLY — batches of evaluations inserted with
+    Table.insert, read-only analysis calls in between — and then analysed; the same analysis runs on the Result built in
+    one go from all rows.  -> (records of the incremental object, records of the one-shot object)"""
+    from coba.context import CobaContext, NullLogger
+    from coba.results.core import Result, Table
+    old = CobaContext.logger
+    CobaContext.logger = NullLogger()
+    try:
+        hdr = INT_HDR + (["z"] if case.get("extra") else [])
+        envs = [["environment_id"] + list(case["env_cols"])] + [[dv(x) for x in r] for r in case["envs"]]
+        lrns = [["learner_id"] + list(case["lrn_cols"])] + [[dv(x) for x in r] for r in case["lrns"]]
+        vals = [["evaluator_id"] + list(case["val_cols"])] + [[dv(x) for x in r] for r in case["vals"]]
+        evs = case["evals"]
+
+        def packed(rows):
+            return ({h: [r[j] for r in rows] for j, h in enumerate(hdr)} if case.get("as_dict", True) else [list(r) for r in rows])
+        obj, is_table, err = None, case["style"] == "table", None
+        try:
+            if is_table:
+                obj = Table(columns=hdr)
+                obj.index("environment_id", "learner_id", "evaluator_id", "index")
+            for op in case["sched"]:
+                if "ins" in op:
+                    rows = [r for k in op["ins"] for r in inc_rows(case, evs[k])]
+                    if obj is None:
+                        obj = Result(envs, lrns, vals, [hdr] + rows)
+                    elif rows:
+                        (obj if is_table else obj.interactions).insert(packed(rows))
+                elif obj is not None:
+                    inc_look(obj, op["look"], is_table)
+            if obj is None:
+                obj = Result(envs, lrns, vals, [hdr])
+            res_i = Result(envs, lrns, vals, obj) if is_table else obj
+        except Exception as e:  # noqa
+            err = "%s: %s" % (type(e).__name__, str(e)[:200])
+            res_i = None
+        used = [k for op in case["sched"] if "ins" in op for k in op["ins"]]
+        res_o = Result(envs, lrns, vals, [hdr] + [r for k in sorted(used) for r in inc_rows(case, evs[k])])
+
+        def analyse(res):
+            out = [{"tables": snap_json(snap(res))}]
+            for st in case["final"]:
+                rec = {}
+                try:
+                    new, t = apply_step(res, st)
+                    if new is not None:
+                        rec["post"] = snap_json(snap(new))
+                    else:
+                        rec["table"] = json.loads(json.dumps((list(t.columns), [list(t[c]) for c in t.columns]), default=str))
+                except Exception as e:  # noqa
+                    rec["err"] = type(e).__name__
+                if st.get("plot") and LAST_PLOT:
+                    rec["plot"] = json.loads(json.dumps(LAST_PLOT.pop(), default=str))
+                out.append(rec)
+            return out
+        return (None if res_i is None else analyse(res_i)), analyse(res_o), err
     finally:
         CobaContext.logger = old
 
@@ -728,6 +873,147 @@ class C18(Property):
     }
 
     # ---------------------------------------------------------------- generation
+    # ---- translator tie (Phase 4, continued): literals of plot_contrast / raw_contrast / _confidence extracted with `ast`
+    #      from the CURRENT source into lean/CobaVerif/Generated/C18Modes.lean; Props/C18.lean proves they equal the model's tables
+    MODEL_TABLES = {"modes": ["diff", "prob"], "boundary": [(0, 1), (1, 2)], "errs": ["se", "bs", "bi", "sd"], "xspecial": ["index"],
+                    "diff_idx": (1, 0), "prob_op": "Gt", "prob_thr": (0, 1), "split_ops": ["Lt", "LtE", "LtE", "Lt"], "every": (1, 20), "skip_off": 1}
+
+    def pre_build(self):
+        import ast
+        from core import lean
+        src = open(os.path.join(os.environ.get("COBA_REPO", "/repo"), "coba", "results", "core.py"), encoding="utf-8").read()
+        got, notes = {}, []
+
+        def fn(cls, name):
+            for n in ast.walk(cls):
+                if isinstance(n, ast.FunctionDef) and n.name == name:
+                    return n
+            return None
+
+        def frac(node):
+            if isinstance(node, ast.Constant) and isinstance(node.value, (int, float)) and not isinstance(node.value, bool):
+                f = Fraction(repr(node.value)) if isinstance(node.value, float) else Fraction(node.value)
+                return (f.numerator, f.denominator)
+            raise ValueError("not a number")
+
+        def cmp_consts(f, var):
+            out = []
+            for n in ast.walk(f):
+                if isinstance(n, ast.Compare) and isinstance(n.left, ast.Name) and n.left.id == var and len(n.ops) == 1 and isinstance(n.ops[0], ast.Eq) \
+                        and isinstance(n.comparators[0], ast.Constant) and isinstance(n.comparators[0].value, str):
+                    out.append((n.lineno, n.col_offset, n.comparators[0].value))
+            return [v for _, _, v in sorted(out)]
+
+        def assign(f, name):
+            for n in ast.walk(f):
+                if isinstance(n, ast.Assign) and len(n.targets) == 1 and isinstance(n.targets[0], ast.Name) and n.targets[0].id == name:
+                    return n.value
+            return None
+        try:
+            import warnings
+            with warnings.catch_warnings():
+                warnings.simplefilter("ignore")
+                tree = ast.parse(src)
+            res = [n for n in ast.walk(tree) if isinstance(n, ast.ClassDef) and n.name == "Result"][0]
+            pc, rc, cf = fn(res, "plot_contrast"), fn(res, "raw_contrast"), fn(res, "_confidence")
+        except Exception:  # noqa
+            pc = rc = cf = None
+
+        def attempt(key, f):
+            try:
+                got[key] = f()
+            except Exception:  # noqa
+                notes.append("C18Modes: %s could not be extracted (source reshaped); correspondence still pins it" % key)
+        attempt("modes", lambda: list(dict.fromkeys(cmp_consts(assign(pc, "contraster"), "mode"))) or (_ for _ in ()).throw(ValueError()))
+
+        def boundary():
+            v = assign(pc, "_boundary")        # 0 if mode == 'diff' else .5
+            assert isinstance(v, ast.IfExp) and cmp_consts(v.test, "mode") == ["diff"]
+            return [frac(v.body), frac(v.orelse)]
+        attempt("boundary", boundary)
+        attempt("errs", lambda: list(dict.fromkeys(cmp_consts(cf, "err"))) or (_ for _ in ()).throw(ValueError()))
+        attempt("xspecial", lambda: sorted(set(cmp_consts(pc, "x") + cmp_consts(rc, "x"))) or (_ for _ in ()).throw(ValueError()))
+
+        def lambdas():
+            v = assign(pc, "contraster")       # (lambda t: t[1]-t[0]) if mode == 'diff' else (lambda t: int((t[1]-t[0])>0)) if mode=='prob' else mode
+            d, p = v.body.body, v.orelse.body.body
+
+            def sub(b):
+                assert isinstance(b, ast.BinOp) and isinstance(b.op, ast.Sub)
+                return (b.left.slice.value, b.right.slice.value)
+            di = sub(d)
+            c = p.args[0]
+            assert isinstance(p.func, ast.Name) and p.func.id == "int" and isinstance(c, ast.Compare) and sub(c.left) == di
+            return di, type(c.ops[0]).__name__, frac(c.comparators[0])
+        attempt("lambdas", lambdas)
+        if "lambdas" in got:
+            got["diff_idx"], got["prob_op"], got["prob_thr"] = got.pop("lambdas")
+
+        def split_ops():
+            ops = []
+            for name in ("l1_win", "no_win", "l2_win"):
+                v = None
+                for n in ast.walk(pc):
+                    if isinstance(n, ast.Assign) and isinstance(n.targets[0], ast.Name) and n.targets[0].id == name and isinstance(n.value, ast.ListComp):
+                        v = n.value
+                        break
+                for t in v.generators[0].ifs:
+                    for c in ([t] if isinstance(t, ast.Compare) else t.values):
+                        ops += [type(o).__name__ for o in c.ops]
+            return ops
+        attempt("split_ops", split_ops)
+
+        def every():
+            v = assign(pc, "errevery")
+            muls = [n for n in ast.walk(v) if isinstance(n, ast.BinOp) and isinstance(n.op, ast.Mult)]
+            f = Fraction(*frac(muls[0].right))
+            assert f.numerator == 1
+            return (1, f.denominator)
+        attempt("every", every)
+
+        def skip_off():
+            v = assign(cf, "skip_err")          # (i+1)%errevery
+            assert isinstance(v, ast.BinOp) and isinstance(v.op, ast.Mod)
+            l = v.left
+            if isinstance(l, ast.Name):
+                return 0
+            assert isinstance(l, ast.BinOp) and isinstance(l.op, ast.Add)
+            return l.right.value
+        attempt("skip_off", skip_off)
+        extracted = {k: (k in got) for k in self.MODEL_TABLES}
+        t = dict(self.MODEL_TABLES, **got)
+
+        def strs(l):
+            return "[" + ", ".join('"%s"' % x.replace('"', "") for x in l) + "]"
+
+        def fr(pq):
+            return "(%d, %d)" % (pq[0], pq[1])
+        body = ("-- GENERATED by harness/props/c18.py from coba/results/core.py (Result.plot_contrast / raw_contrast / _confidence) on every run; do not edit.\n"
+                "-- An item that could not be extracted (source reshaped) carries the model's own value and is listed in `notExtracted`.\n"
+                "namespace Coba.Generated.C18\n"
+                "def modes : List String := %s\n"
+                "def boundaries : List (Int × Nat) := [%s]\n"
+                "def errNames : List String := %s\n"
+                "def xSpecial : List String := %s\n"
+                "def diffIdx : Nat × Nat := (%d, %d)\n"
+                "def probOp : String := \"%s\"\n"
+                "def probThreshold : Int × Nat := %s\n"
+                "def splitOps : List String := %s\n"
+                "def errEveryFactor : Nat × Nat := (%d, %d)\n"
+                "def skipOffset : Nat := %d\n"
+                "def notExtracted : List String := %s\n"
+                "end Coba.Generated.C18\n"
+                % (strs(t["modes"]), ", ".join(fr(b) for b in t["boundary"]), strs(t["errs"]), strs(t["xspecial"]), t["diff_idx"][0], t["diff_idx"][1],
+                   t["prob_op"], fr(t["prob_thr"]), strs(t["split_ops"]), t["every"][0], t["every"][1], t["skip_off"],
+                   strs([k for k in self.MODEL_TABLES if not extracted[k]])))
+        path = os.path.join(lean.LEAN_DIR, "CobaVerif", "Generated", "C18Modes.lean")
+        old = open(path, encoding="utf-8").read() if os.path.exists(path) else None
+        if old != body:
+            os.makedirs(os.path.dirname(path), exist_ok=True)
+            with open(path, "w", encoding="utf-8") as f:
+                f.write(body)
+        return notes + ["C18Modes: extracted %s from coba/results/core.py" % sorted(k for k in extracted if extracted[k])]
+
     def gen_value(self, rng, kind):
         if kind == "str":
             return rng.choice(["a", "b", "a", "c"])
@@ -920,7 +1206,78 @@ class C18(Property):
             st["multi"] = True
             st["l1"] = [(u if isinstance(l, list) else u[0]) for u in side1]
             st["l2"] = [(u if isinstance(l, list) else u[0]) for u in side2]
+        if rng.chance(0.65):
+            # the same contrast through plot_contrast with a recording plotter (Phase 4)
+            if not st.get("multi") and isinstance(l, str) and rng.chance(0.2):
+                st["x"] = l                 # the `x == l` branch: one point labelled "l2-l1"
+            st["plot"] = {"mode": rng.choice(["diff", "diff", "prob"]), "err": rng.choice([None, None, "range", "range", "sd", "se"]),
+                          "errevery": rng.choice([None, None, 0, 1, 2, 3]), "boundary": not rng.chance(0.15)}
         return st
+
+    # ---- round g: Results built incrementally (Table.insert batches, analysis calls in between) vs. the one-shot Result
+    def gen_inc(self, rng, small=False):
+        case = self.gen_result(rng)
+        tries = 0
+        while len(case["evals"]) < 3 and tries < 5:
+            case = self.gen_result(rng)
+            tries += 1
+        case.pop("rev", None)
+        case["kind"] = "inc"
+        case["style"] = rng.choice(["table", "result", "result"])
+        case["as_dict"] = not rng.chance(0.3)
+        evs = case["evals"]
+        order = sorted(range(len(evs)), key=lambda k: tuple(evs[k][:3]))      # index order: what a running experiment appends
+        if rng.chance(0.12):
+            order = rng.shuffle(order)                                          # out of order: insert has to sort again
+            case["out_of_order"] = True
+        if rng.chance(0.25) and len(order) > 2:
+            order = order[:-1] if rng.chance(0.5) else order[:len(order) // 2 + 1]   # the run has not finished yet
+        looks_t = ["table_where", "table_groupby", "table_groupby1", "table_where"]
+        looks_r = looks_t + ["where", "fin", "fin_min", "raw", "raw", "raw_p", "copy"]
+        sched, i = [], 0
+        while i < len(order):
+            k = rng.choice([1, 1, 2, 3, len(order)])
+            sched.append({"ins": order[i:i + k]})
+            i += k
+            if i < len(order) and rng.chance(0.85):
+                for _ in range(rng.choice([1, 1, 2])):
+                    sched.append({"look": rng.choice(looks_t if case["style"] == "table" else looks_r)})
+        case["sched"] = sched
+        final = [{"op": "where_fin", "n": None, "l": "learner_id", "p": "environment_id"},
+                 {"op": "raw_learners", "x": "environment_id", "l": "learner_id", "p": "environment_id", "span": None}]
+        for _ in range(rng.choice([1, 2, 3])):
+            st = self.gen_step(rng, case)
+            if st["op"] in ("where_fin", "raw_learners"):
+                final.append(st)
+        final.append(self.gen_raw(rng, case))
+        c = self.gen_contrast(rng, case)
+        if c:
+            final.append(c)
+        case["final"] = [st for st in final if st and st.get("op") in ("where_fin", "raw_learners", "raw_contrast")]
+        return case
+
+    def eval_inc(self, case):
+        fails, tags = [], ["op:incremental", "inc:style=" + case["style"], "inc:out-of-order" if case.get("out_of_order") else "inc:in-order"]
+        got, exp, err = run_inc(case)
+        sched = [("ins%s" % op["ins"] if "ins" in op else op["look"]) for op in case["sched"]]
+        n_ins = sum(1 for op in case["sched"] if "ins" in op)
+        looked = any("look" in op for op in case["sched"])
+        tags.append("inc:looks" if looked else "inc:no-looks")
+        if err is not None:
+            fails.append(F("B", "building the Result incrementally (%s; schedule %s) raised %s" % (case["style"], sched, err), "inc:build-raises-" + err.split(":")[0]))
+            return {"fails": fails, "nontrivial": False, "tags": tags, "impl": None, "model": None}
+        names = ["tables after the last insert"] + ["%s(%s)" % (st["op"], ", ".join("%s=%r" % (k, st[k]) for k in ("n", "x", "l1", "l2", "l", "p", "span") if k in st)) for st in case["final"]]
+        for nm, st, g, e in zip(names, [None] + case["final"], got, exp):
+            if canonj(g) == canonj(e):
+                continue
+            opn = "tables" if st is None else st["op"]
+            part = "plot_contrast" if (st is not None and {k: v for k, v in g.items() if k != "plot"} == {k: v for k, v in e.items() if k != "plot"}) else opn
+            fails.append(F("B", "Result built incrementally (%s, schedule %s): %s gives %s, the same Result built in one go gives %s"
+                           % (case["style"], sched, nm, canonj(g)[:500], canonj(e)[:500]), "inc:%s-differs-from-one-shot" % part))
+            break
+        for st, g in zip(case["final"], got[1:]):
+            tags.append("inc:final=" + st["op"] + (":err" if "err" in g else ""))
+        return {"fails": fails, "nontrivial": n_ins >= 2 and looked and any("err" not in g for g in got[1:]), "tags": tags, "impl": got, "model": None}
 
     def gen_ma(self, rng, boundary=False):
         n = rng.choice([0, 1, 2, 3, 4, 5, 6, 8, 12, 12, 25, 60])
@@ -946,14 +1303,16 @@ class C18(Property):
     def generate(self, rng, tier):
         if rng.chance(0.22):
             return self.gen_ma(rng)
+        if rng.chance(0.12):
+            return self.gen_inc(rng)
         case = self.gen_result(rng)
         steps = []
         k = rng.choice([1, 1, 2, 2, 3, 4])
         for _ in range(k):
             steps.append(self.gen_step(rng, case))
-        if rng.chance(0.25):
+        if rng.chance(0.4):
             st = self.gen_contrast(rng, case)
-            if st and rng.chance(0.6):
+            if st and (rng.chance(0.6) or st.get("plot")):
                 steps.insert(0, st)         # on the fresh Result (raw_contrast does not change the Result)
             elif st:
                 steps.append(st)
@@ -972,6 +1331,8 @@ class C18(Property):
         """boundary-biased: small dense results with two evaluators and missing triples, where_fin/raw_learners only"""
         if rng.chance(0.15):
             return self.gen_ma(rng, True)
+        if rng.chance(0.2):
+            return self.gen_inc(rng)
         case = self.gen_result(rng)
         steps = []
         for _ in range(rng.choice([1, 2])):
@@ -1063,6 +1424,23 @@ class C18(Property):
                             ([1, 2, 3, 4], None, [1, 2, 3, 4]), ([1, 2, 3], 1, [0, 1, 1]), ([1, 2], 0, None), ([], 2, None), ([5], 1, None),
                             ([1, 2, 3, 4], 3, [0, 0, 0, 1]), ([1, 2, 3], 5, None), ([3, 1, 2, 6, 0, 0, 1], 3, None)):
             cs.append({"kind": "ma", "vs": [q(v) for v in vs], "span": span, "w": (w if not isinstance(w, list) else [q(x) for x in w])})
+        # round g (mutant C18-gm4): Results built incrementally — insert batches in index order starting from an empty indexed
+        # Table / a Result extended later, with a read-only use between the inserts — against the same Result built in one go
+        ib = {"kind": "inc", "env_cols": ["n_actions"], "lrn_cols": ["family"], "val_cols": [], "extra": False, "as_dict": True,
+              "envs": [[0, 2], [1, 3], [2, 4]], "lrns": [[0, "A"], [1, "B"]], "vals": [[0]],
+              "evals": [[e, l, 0, [(5 * e + 3 * l + i) % 4 for i in range(1, 4)]] for e in range(3) for l in range(2)]}
+        fin = [{"op": "where_fin", "n": None, "l": "learner_id", "p": "environment_id"},
+               {"op": "where_fin", "n": "min", "l": "learner_id", "p": "environment_id"},
+               {"op": "raw_learners", "x": "environment_id", "l": "learner_id", "p": "environment_id", "span": None},
+               {"op": "raw_learners", "x": "index", "l": "learner_id", "p": "environment_id", "span": 2},
+               {"op": "raw_contrast", "l": "learner_id", "l1": 0, "l2": 1, "x": "environment_id", "p": "environment_id", "span": None,
+                "plot": {"mode": "diff", "err": None, "errevery": None, "boundary": True}}]
+        for look in ("table_where", "table_groupby", "table_groupby1"):
+            cs.append(dict(ib, style="table", final=fin, sched=[{"ins": [0]}, {"ins": [1]}, {"look": look}, {"ins": [2, 3]}, {"ins": [4]}, {"ins": [5]}]))
+        for look in ("raw", "where", "fin", "fin_min", "raw_p", "copy", "table_where", "table_groupby"):
+            cs.append(dict(ib, style="result", final=fin, sched=[{"ins": [0, 1, 2, 3, 4]}, {"look": look}, {"ins": [5]}]))
+            cs.append(dict(ib, style="result", as_dict=False, final=fin, sched=[{"ins": [0, 1]}, {"look": look}, {"ins": [2, 3]}, {"look": look}, {"ins": [4, 5]}]))
+        cs.append(dict(ib, style="table", final=fin, sched=[{"ins": [4, 5]}, {"look": "table_where"}, {"ins": [0, 1]}, {"look": "table_groupby"}, {"ins": [2, 3]}]))   # out of order
         return cs
 
     def exhaustive(self, tier):
@@ -1089,6 +1467,8 @@ class C18(Property):
     def evaluate(self, case, driver):
         if case["kind"] == "ma":
             return self.eval_ma(case, driver)
+        if case["kind"] == "inc":
+            return self.eval_inc(case)
         fails, tags = [], []
         recs = run_case(case)
         nontrivial = False
@@ -1134,6 +1514,8 @@ class C18(Property):
             elif op == "raw_contrast":
                 nt = self.check_contrast(st, rec, fails, tags, coder)
                 nontrivial = nontrivial or nt
+                if st.get("plot") and "plot" in rec:
+                    self.check_plot(st, rec, fails, tags, coder)
             elif "post" in rec:
                 check_tables(rec["post"], pre, fails, op, False)
             elif op == "where":
@@ -1431,6 +1813,152 @@ class C18(Property):
                            % (call, got, st["p"], {str(k): [(str(a), str(b)) for a, b in v] for k, v in exp.items()}), "contrast:%s-differ" % kind))
         return sum(len(v) for v in exp.values()) >= 2
 
+    # ---- (B) plot_contrast (Phase 4): the recording plotter receives, for exactly the x labels of the pairing, the arithmetic
+    #      mean of the contrasts (l2-l1, or int(l2-l1>0)) of the correctly paired, directly computed averages
+    @staticmethod
+    def plot_points(call):
+        """data lines handed to the plotter (the grey boundary line excluded) -> [[(x, y, (lo, hi))]]"""
+        out = []
+        for ln in call["lines"]:
+            if ln["color"] == "#888":
+                continue
+            ye = ln["YE"] if ln["YE"] is not None else [0] * len(ln["X"])
+            out.append([(xv, yv, (tuple(e) if isinstance(e, (list, tuple)) else (e, e))) for xv, yv, e in zip(ln["X"], ln["Y"], ye)])
+        return out
+
+    def check_plot(self, st, rec, fails, tags, coder):
+        pl, pr = st["plot"], rec["plot"]
+        call = "plot_contrast(%r,%r,x=%r,l=%r,p=%r,mode=%r,span=%r,err=%r,errevery=%r)" % (
+            st["l1"], st["l2"], st["x"], st["l"], st["p"], pl["mode"], st.get("span"), pl.get("err"), pl.get("errevery"))
+        tags.append("plotc:mode=%s" % pl["mode"])
+        tags.append("plotc:err=%s" % pl.get("err"))
+        if st["x"] == "index" and st.get("span") == 0:
+            return
+        d0 = Direct(rec["pre"])
+        if d0.has_nonfinite():
+            tags.append("plotc:skipped-non-finite")
+            return
+        if any(t in tags[-8:] for t in ("contrast:mixed-x-labels", "contrast:unpaired", "contrast:TypeError-label-next-to-value", "contrast:windowed-non-finite(F5)")):
+            tags.append("plotc:B-skipped(as raw_contrast)")
+            return
+        exp, d = self.contrast_expected(st, rec["pre"])
+        if exp == "unpaired":
+            return
+        if exp == "raise":
+            tags.append("plotc:nothing-to-plot")
+            if pr["calls"] or "err" in pr:
+                fails.append(F("B", "%s handed %s to the plotter although there is nothing to pair" % (call, pr.get("err") or pr["calls"][0]["lines"]), "plotc:plots-nothing-to-pair"))
+            return
+        if "err" in pr:
+            if "err" in rec and rec["err"] == pr["err"]:
+                return                                  # raw_contrast itself raises: reported (or excused) there
+            if pl.get("err") in ("sd", "se"):
+                # observation O-P4 (notes): statistics.var's one-pass formula can come out slightly negative for (nearly) equal
+                # contrasts, stdev = var**(1/2) is then complex and round() raises TypeError. Error bars are outside the statement.
+                tags.append("plotc:ci-raises-%s(outside-statement)" % pr["err"])
+                return
+            fails.append(F("B", "%s raised %s (%s); raw_contrast on the same arguments does not" % (call, pr["err"], pr.get("errmsg")), "plotc:raises-" + pr["err"]))
+            return
+        if "err" in rec:
+            return
+        if len(pr["calls"]) != 1:
+            fails.append(F("B", "%s called the plotter %d times" % (call, len(pr["calls"])), "plotc:plotter-calls"))
+            return
+        tags.append("plotc:plotted")
+        kind = "index" if st["x"] == "index" else ("isL" if st["x"] == st["l"] else "other")
+        tags.append("plotc:branch=%s" % kind)
+        pts = [p for ln in self.plot_points(pr["calls"][0]) for p in ln]
+
+        def contrast(a, b):
+            return (b - a) if pl["mode"] == "diff" else Fraction(int(b - a > 0))
+        want = {}
+        for k, pairs in exp.items():
+            zs = [contrast(Fraction(a), Fraction(b)) for a, b in pairs]
+            want[str(k) if kind == "other" else k] = sum(zs) / len(zs)
+        got = {}
+        for xv, yv, _ in pts:
+            got.setdefault(xv, []).append(yv)
+        if set(got) != set(want) or any(len(v) != 1 for v in got.values()):
+            fails.append(F("B", "%s plots the x values %s; pairing the evaluations by %s gives the x values %s" % (call, sorted(map(str, got)), st["p"], sorted(map(str, want))), "plotc:x-values-differ"))
+            return
+        bad = [(k, got[k][0], str(want[k])) for k in want if not (abs(Fraction(got[k][0]) - want[k]) <= Fraction(1, 10**9) * max(1, abs(want[k])))]
+        if bad:
+            fails.append(F("B", "%s plots y=%r at x=%r; the arithmetic mean of the %s of the paired, directly computed averages is %s (pairs %s)"
+                           % (call, bad[0][1], bad[0][0], "differences l2-l1" if pl["mode"] == "diff" else "indicators [l2>l1]", bad[0][2],
+                              [(str(a), str(b)) for a, b in [v for k, v in exp.items() if (str(k) if kind == "other" else k) == bad[0][0]][0]][:6]), "plotc:mean-of-paired-%s-differs" % pl["mode"]))
+            return
+        if pl.get("err") is None and any(e != (0, 0) for _, _, e in pts):
+            fails.append(F("B", "%s draws error bars %s although err=None" % (call, [e for _, _, e in pts][:4]), "plotc:error-bars-without-err"))
+
+    def correspond_plot(self, st, rec, driver, coder, fails, tags, req, m_raw, lab_of):
+        """(A): the lines handed to the recording plotter vs. `plotContrast` of the Lean model"""
+        pl, pr = st["plot"], rec["plot"]
+        if pl.get("err") not in (None, "range"):
+            tags.append("plotc:A-skipped-sqrt-interval")
+            return
+        x = st["x"]
+        kind = "index" if x == "index" else ("isL" if x == st["l"] else "other")
+        if kind == "isL" and st.get("multi"):
+            return
+        xord = None
+        if x != "index" and "table" in rec:
+            inv = {}
+            for x1, x2, _ in m_raw.get("ok", []):
+                inv.setdefault(lab_of(x1, x2), []).append([x1, x2])
+            xs = list(rec["table"][1][0])
+            if any(len(inv.get(v, [])) != 1 for v in xs) or len(xs) != len(inv):
+                tags.append("plotc:A-skipped-ambiguous-labels")
+                return
+            xord = [inv[v][0] for v in xs]
+        ans = ask(driver, dict(req, kind="plotc", mode=pl["mode"], ci=("none" if pl.get("err") is None else "range"), errevery=pl.get("errevery"),
+                               xkind=kind, xord=xord))
+        m = ans["model"]
+        if canonj(m) != canonj(ans["spec"]):
+            fails.append(F("C", "model of plot_contrast differs from its spec", "C:plot_contrast"))
+        sc = yscale(rec["pre"])
+        if "err" in m:
+            # CobaException is logged by plot_contrast, the plotter is not called; other errors propagate
+            ok = (m["err"] == "CobaException" and not pr["calls"] and "err" not in pr) or (pr.get("err") == m["err"])
+            if not ok:
+                fails.append(F("A", "plot_contrast: implementation %s, model %s" % (pr.get("err") or ("%d plotter calls" % len(pr["calls"])), m["err"]), "A:plot_contrast-error"))
+            return
+        if "err" in pr or len(pr["calls"]) != 1:
+            fails.append(F("A", "plot_contrast: implementation %s, model plots %s" % (pr.get("err") or ("%d plotter calls" % len(pr["calls"])), canonj(m)[:200]), "A:plot_contrast-error"))
+            return
+        tags.append("plotc:A-applied")
+        scale_y = sc if pl["mode"] == "diff" else 1
+        mlines = [[((x1[0] if x == "index" else lab_of(x1, x2)), unq(y) / scale_y, unq(lo) / scale_y, unq(hi) / scale_y) for x1, x2, y, lo, hi in ln] for ln in m["ok"]]
+        ilines = self.plot_points(pr["calls"][0])
+        tol = Fraction(1, 10**9)
+
+        def near(a, b):
+            return abs(Fraction(a) - b) <= tol * max(1, abs(b))
+
+        def same():
+            if len(mlines) != len(ilines):
+                return False
+            for ml, il in zip(mlines, ilines):
+                if len(ml) != len(il):
+                    return False
+                for (mx, my, mlo, mhi), (ix, iy, (ilo, ihi)) in zip(ml, il):
+                    if (str(mx) if kind == "other" else mx) != ix or not (near(iy, my) and near(ilo, mlo) and near(ihi, mhi)):
+                        return False
+            return True
+        if same():
+            return
+        # float noise can only matter where an exactly computed bound touches the boundary / two y coincide
+        b = Fraction(0) if pl["mode"] == "diff" else Fraction(1, 2)
+        allp = [p for ln in mlines for p in ln]
+        vals_exact = all(Fraction(float(v)).denominator <= 2**20 for prs in rec["table"][1][1] for ab in prs for v in ab)
+        touching = any(abs(p[1] + p[3] - b) < tol or abs(p[1] - p[2] - b) < tol for p in allp)
+        close_y = any(p1[1] != p2[1] and abs(p1[1] - p2[1]) < tol for i, p1 in enumerate(allp) for p2 in allp[i + 1:])
+        if kind == "other" and not vals_exact and (touching or close_y or any(p1[1] == p2[1] for i, p1 in enumerate(allp) for p2 in allp[i + 1:])):
+            tags.append("plotc:A-fragile-float-boundary")
+            return
+        fails.append(F("A", "plot_contrast(%r,%r,x=%r,l=%r,p=%r,mode=%r,span=%r,err=%r,errevery=%r): plotter received %s, model %s"
+                       % (st["l1"], st["l2"], x, st["l"], st["p"], pl["mode"], st.get("span"), pl.get("err"), pl.get("errevery"),
+                          [[(ix, iy, e) for ix, iy, e in il] for il in ilines][:3], [[(str(mx), str(my), str(mlo), str(mhi)) for mx, my, mlo, mhi in ml] for ml in mlines][:3]), "A:plot_contrast"))
+
     # ---- (B) raw_learners
     def check_raw(self, st, rec, fails, tags):
         pre = rec["pre"]
@@ -1544,19 +2072,28 @@ class C18(Property):
                 return None
             dd = Direct(pre)
             strx = x != "index" and all(isinstance(dd.cell(c, t), str) for t in dd.evals for c in aslist(x)) and not isinstance(x, (list, tuple))
-            ans = ask(driver, {"kind": "contrast", "res": res, "sels1": [sel(v) for v in labs1], "sels2": [sel(v) for v in labs2],
-                               "p": col_refs(pre, st["p"]), "x": ("index" if x == "index" else col_refs(pre, x)), "span": st.get("span"),
-                               "strx": bool(strx)})
+            req = {"kind": "contrast", "res": res, "sels1": [sel(v) for v in labs1], "sels2": [sel(v) for v in labs2],
+                   "p": col_refs(pre, st["p"]), "x": ("index" if x == "index" else col_refs(pre, x)), "span": st.get("span"),
+                   "strx": bool(strx)}
+            ans = ask(driver, req)
             m = ans["model"]
-            if "err" in rec or "err" in m:
-                if rec.get("err") != m.get("err"):
-                    fails.append(F("A", "raw_contrast: implementation %s, model %s" % (rec.get("err") or "table", canonj(m)[:300]), "A:raw_contrast"))
-                return m
             inv = {c: {code: val for val, code in list(coder.cols[c][0].items()) + list(coder.cols[c][1])} for c in coder.cols}
 
             def real(cols, key):
                 vals = [(k if (c in ID_COLS or c == "index") else inv[c].get(k)) for c, k in zip(aslist(cols), key)]
                 return tuple(vals) if isinstance(cols, (list, tuple)) else vals[0]
+
+            def lab_of(x1, x2):
+                if x == "index":
+                    return x1[0]
+                a_, b_ = real(x, x1), real(x, x2)
+                return a_ if a_ == b_ else "%s-%s" % (b_, a_)
+            if st.get("plot") and "plot" in rec and (rec.get("err") == m.get("err")):
+                self.correspond_plot(st, rec, driver, coder, fails, tags, req, m, lab_of)
+            if "err" in rec or "err" in m:
+                if rec.get("err") != m.get("err"):
+                    fails.append(F("A", "raw_contrast: implementation %s, model %s" % (rec.get("err") or "table", canonj(m)[:300]), "A:raw_contrast"))
+                return m
             exp = {}
             for x1, x2, pairs in m["ok"]:
                 if x == "index":
@@ -1744,6 +2281,24 @@ class C18(Property):
             if case.get("span"):
                 yield dict(case, span=case["span"] - 1)
             return
+        if case["kind"] == "inc":
+            fin, sched = case["final"], case["sched"]
+            for k in range(len(fin)):
+                if len(fin) > 1:
+                    yield dict(case, final=fin[:k] + fin[k + 1:])
+            for k in range(len(sched)):
+                if "look" in sched[k]:
+                    yield dict(case, sched=sched[:k] + sched[k + 1:])
+            for k in range(len(sched) - 1, -1, -1):
+                if "ins" in sched[k] and len(sched[k]["ins"]) > 1:
+                    yield dict(case, sched=sched[:k] + [{"ins": sched[k]["ins"][:-1]}] + sched[k + 1:])
+                elif "ins" in sched[k] and sum(1 for o in sched if "ins" in o) > 1:
+                    yield dict(case, sched=sched[:k] + sched[k + 1:])
+            if case.get("extra"):
+                yield dict(case, extra=False)
+            if case.get("rk"):
+                yield {k: v for k, v in case.items() if k != "rk"}
+            return
         steps = case["steps"]
         for k in range(len(steps)):
             if len(steps) > 1:
@@ -1786,6 +2341,15 @@ class C18(Property):
             w = [tofl(p) for p in w] if isinstance(w, list) else w
             return ("import sys; sys.path.insert(0, %r)\nfrom coba.results.core import moving_average\n"
                     "print(list(moving_average(%r, %r, %r)))\n" % (os.environ.get("COBA_REPO", "/repo"), vs, case.get("span"), w))
+        if case["kind"] == "inc":
+            return ("import sys, json; sys.path.insert(0, %r); sys.path.insert(0, %r)\n"
+                    "from props.c18 import run_inc, canonj\ncase = json.loads(%r)\n"
+                    "# builds the Result incrementally (Table.insert batches %s, style %r) and in one go, then runs the same analysis on both\n"
+                    "got, exp, err = run_inc(case)\nprint(err)\n"
+                    "for st, g, e in zip(['tables'] + case['final'], got or [], exp):\n"
+                    "    print(st, 'SAME' if canonj(g) == canonj(e) else ('incremental: ' + canonj(g)[:600] + '  one-shot: ' + canonj(e)[:600]))\n"
+                    % (os.environ.get("COBA_REPO", "/repo"), os.path.dirname(os.path.dirname(os.path.abspath(__file__))), json.dumps(case),
+                       [op.get("ins", op.get("look")) for op in case["sched"]], case["style"]))
         envs = [["environment_id"] + list(case["env_cols"])] + [[dv(x) for x in r] for r in case["envs"]]
         lrns = [["learner_id"] + list(case["lrn_cols"])] + [[dv(x) for x in r] for r in case["lrns"]]
         vals = [["evaluator_id"] + list(case["val_cols"])] + [[dv(x) for x in r] for r in case["vals"]]
